@@ -966,6 +966,10 @@ func buildIntersectExceptTree(stmts []ast.Statement, ops []string) ast.Statement
 	if len(stmts) == 1 {
 		return stmts[0]
 	}
+	// A trailing operator whose operand failed to parse has no statement after it
+	if len(ops) > len(stmts)-1 {
+		ops = ops[:len(stmts)-1]
+	}
 
 	// First pass: group consecutive INTERSECT operations (higher precedence)
 	// Result will be a list of statements/groups connected by EXCEPT operators
